@@ -102,13 +102,28 @@ pub fn random_cfg(rng: &mut Rng, swallowing: bool) -> String {
         alts.push(a.join(" "));
         for _ in 0..rng.range(1, 3) {
             let mut a = vec![];
+            let me_sym = format!("n{}", i);
             for _ in 0..rng.range(1, 4) {
                 match rng.below(10) {
-                    0..=3 => a.push(format!("n{}", rng.below(n_nt))),
+                    0..=3 => {
+                        // at most one self reference and two non-terminals per alternative:
+                        // "n0: n0 n0 x" (or the same through mutual recursion) has Catalan-many
+                        // parses and single operations on long histories then cost minutes
+                        let mut nt = format!("n{}", rng.below(n_nt));
+                        let n_nts = a.iter().filter(|x: &&String| x.starts_with('n') || x.starts_with("(n")).count();
+                        if (nt == me_sym && a.iter().any(|x: &String| x.contains(&me_sym))) || n_nts >= 2 {
+                            nt = format!("\"{}\"", rng.pick(&lits));
+                        }
+                        a.push(nt)
+                    }
                     4..=7 => a.push(format!("\"{}\"", rng.pick(&lits))),
                     8 => a.push(format!("T{}", rng.below(n_t))),
                     _ => {
-                        let inner = format!("n{}", rng.below(n_nt));
+                        let mut k = rng.below(n_nt);
+                        if format!("n{}", k) == me_sym {
+                            k = (k + 1) % n_nt;
+                        }
+                        let inner = format!("n{}", k);
                         let suf = *rng.pick(&["?", "*", "+", "{1,3}"]);
                         a.push(format!("({} \"{}\"){}", inner, rng.pick(&lits), suf));
                     }
@@ -121,7 +136,10 @@ pub fn random_cfg(rng: &mut Rng, swallowing: bool) -> String {
             if only_nt && a.iter().any(|x| *x == me) {
                 a.push(format!("\"{}\"", rng.pick(&lits)));
             }
-            alts.push(a.join(" "));
+            let alt = a.join(" ");
+            if !alts.contains(&alt) {
+                alts.push(alt);
+            }
         }
         if rng.chance(0.15) {
             alts.push(String::new()); // empty production
@@ -1782,6 +1800,11 @@ pub fn mutate_text(rng: &mut Rng, text: &str, kind: GKind) -> String {
                 let mut done = false;
                 let mut chars = s.chars().peekable();
                 while let Some(c) = chars.next() {
+                    // known finding F11: construction time and memory are linear in min/maxItems
+                    // (no limit applies); keep the random mutations below the point where a single
+                    // run costs minutes - the finding has its own regression scenario
+                    let after_items = out.ends_with("Items\":") || out.ends_with("Items\": ");
+                    let big = if after_items { "3000" } else { big };
                     if !done && c.is_ascii_digit() && rng.chance(0.3) {
                         while chars.peek().map(|x| x.is_ascii_digit()).unwrap_or(false) {
                             chars.next();
